@@ -54,6 +54,7 @@ def cases(tier, seed):
     out += [("curated", s) for s in ormgraphs.family_alt_parent(tier, no_repeats=True)]
     out += [("curated", s) for s in ormgraphs.family_drawing(tier, no_repeats=True)]
     out += [("curated", s) for s in ormgraphs.family_alt_group(tier, no_repeats=True)]
+    out += [("curated", s) for s in ormgraphs.family_bags(tier, no_repeats=True)]
     teams = ormgraphs.family_teams(tier, no_repeats=True)
     out += [("curated", s) for s in (teams[::4] if tier == "quick" else teams)]
     # generated models
@@ -307,6 +308,14 @@ def run_case(case):
 
 
 def classify(case, failure):
+    # the same open finding as C04-F3 (from_dao is the same code after a reload)
+    if case and case[0] == "curated":
+        from checks import c04_findings
+        # relationship collections are compared as sets here, so the first difference found on such a graph is reported
+        # either as a sharing difference or as an element without a match
+        if failure.kind == "not-isomorphic" and c04_findings.alt_to_alt_reference_on_a_cycle(case[1]) and (
+                "sharing structure differs" in failure.detail or "no matching element in the copy" in failure.detail):
+            return "C05/cycle-through-reference-between-alternatively-mapped-objects"
     return None
 
 
